@@ -417,6 +417,14 @@ def late_edit_check(ctx, recs, fields, count, tag):
         if len(jobs) % 4 == 2:
             # every second case: solve, redirect one transition to that state in place, solve again through the same object
             cand = [(s, k) for s, row in enumerate(r.game["transition_list"]) for k in range(len(row)) if row[k][1] != extra]
+            # preferably revive a dead state: one of ITS transitions now leads to a final state, so the set of states that can
+            # reach a final state grows between the two solves
+            probs = r.out[FIELDS["probs"]]
+            dead = [(s, k) for s, k in cand if probs[s] == 0 and s not in r.game["final_states"]]
+            if dead:
+                cand = dead
+                extra = r.game["final_states"][0]
+                cand = [(s, k) for s, k in cand if r.game["transition_list"][s][k][1] != extra] or cand
             if cand:
                 s, k = ctx.rng.choice(cand)
                 tl2 = [list(row) for row in r.game["transition_list"]]
